@@ -96,14 +96,16 @@ type Enc struct {
 	ptrParams []Term
 	ranges    map[*ssa.Range]*rangeState
 	rangeKeys map[*ssa.Next]Term
-	famSorts  map[string]string
-	backOrd   map[*ssa.BasicBlock]int
-	selfGhost map[string]ghostInst
-	allWrites map[string]bool
-	axiomMemo map[string]bool
-	atOrd     map[string]int
-	atOrdPat  map[string]int
-	callKeys  map[string]string
+	// loop whose own write set must not record the current write (entry counter bumped at its header)
+	skipWriteFor *loopInfo
+	famSorts     map[string]string
+	backOrd      map[*ssa.BasicBlock]int
+	selfGhost    map[string]ghostInst
+	allWrites    map[string]bool
+	axiomMemo    map[string]bool
+	atOrd        map[string]int
+	atOrdPat     map[string]int
+	callKeys     map[string]string
 }
 
 func (w *World) tagFor(name string) int {
@@ -260,7 +262,7 @@ func (e *Enc) noteWrite(name string) {
 		return
 	}
 	for _, li := range e.loopList {
-		if li.body[e.curB] {
+		if li.body[e.curB] && li != e.skipWriteFor {
 			if e.disc[li.header] == nil {
 				e.disc[li.header] = map[string]bool{}
 			}
